@@ -372,7 +372,13 @@ fn store_return_data(
 
         let polling_interval = vm.watchdog().poll_every();
 
+        #[cfg(smlxl_storage_layout_extractor_verif)]
+        crate::verif::loop_enter(crate::verif::Site::CallReturnData);
+
         for (count, internal_offset) in (0..size_limit).step_by(32).enumerate() {
+            #[cfg(smlxl_storage_layout_extractor_verif)]
+            crate::verif::tick(crate::verif::Site::CallReturnData);
+
             // If we have been told to stop, stop and return an error
             if count % polling_interval == 0 && vm.watchdog().should_stop() {
                 Err(Error::StoppedByWatchdog).locate(instruction_pointer)?;
